@@ -219,6 +219,9 @@ func (n *Tree[V]) delNode(path string, matcher ValueMatcher[V], inStaticToken bo
 
 		if newSize == 0 {
 			n.backtrackingEnabled = true
+			// the node may stay in the tree because of its children. The wildcard keys are however
+			// only relevant for its values and must not be compared to the keys of values added later
+			n.wildcardKeys = nil
 		}
 
 		return oldSize != newSize
